@@ -235,6 +235,9 @@ def r09_5(ctx):
 def run(ctx):
     r09_1(ctx, state_recheck=False)
     r09_7(ctx)
+    # "no job is ... held up because of recycling" also while the pool is closing
+    from .c07 import r07_12
+    r07_12(ctx, 'R09.8')
     # a replacement worker's consumed-result counter is registered in the pool's table after the result handler was
     # built: the handler must look at that table itself, or recycled replacements wait out their 30 s guard
     from .c05 import helpers_hold_live_objects
